@@ -223,6 +223,12 @@ func vAssert(c bool, label string) {
 	}
 }
 
+// vAssertInfo is vAssert with a detail string for reports.
+func vAssertInfo(c bool, label string, info string) { vAssert(c, label) }
+
+// vNote records free text for reports; it is not compared between the executor and the native run.
+func vNote(label string, text string) {}
+
 func vReach(label string) {}
 func vFlag(label string)  {}
 func vStop()              { panic(vStopped{}) }
